@@ -1,5 +1,6 @@
 import Cadence.Proofs.WriterHistory
 import Cadence.Proofs.WriterRefine
+import Cadence.Proofs.WriterCheck
 /-!
 # C05 — a buffered sink never splits or merges metrics across datagrams
 
@@ -32,6 +33,13 @@ pass-through), so BufWriter never flushes on its own in the middle of a line. -/
 theorem invariant_reachable (c : Cfg α) (ops : List (Op α)) (orc : List Outcome) :
     ∃ p, Inv c (runOps c ⟨0, []⟩ ops orc).2.1 p :=
   (history_framing c ops orc ⟨0, []⟩ [] (inv_empty c)).2.2
+
+/-- The executable predicate the driver evaluates on the *implementation's* observations for
+C05 / C06 / C07 / C19 (`ckLife`, written against the properties) accepts every life of the model
+(non-empty terminator): an implementation that behaves like the model is never flagged by it. -/
+theorem predicate_accepts_every_model_life [DecidableEq α] (c : Cfg α) (hne : c.ending ≠ [])
+    (ops : List (Op α)) (orc : List Outcome) : ckLife c [] ops (runLife c ops orc) = .ok () :=
+  ckLife_accepts_model c hne ops orc
 
 -- non-vacuity: exact fit, oversize bypass, failed flush, drop delivering what the failed flush kept
 example : (runLife (⟨8, [10]⟩ : Cfg Nat)
